@@ -298,6 +298,19 @@ def main():
             problems.append("no harness selected in crate %s" % crate)
             continue
         results, out, wall = run_kani(crate, sel, tier, opts)
+        if "__build_error__" in results and opts.get("build_failure_is_violation"):
+            # the catalogue of derived types no longer compiles although /repo itself builds:
+            # the derive output is wrong for a supported shape (C18)
+            rc2, o2, _ = sh(["cargo", "build", "--offline", "--features", "serde specs-derive"], cwd=REPO)
+            if rc2 == 0:
+                os.makedirs(REPLAY, exist_ok=True)
+                path = os.path.join(REPLAY, "%s_build_failure.log" % prop)
+                open(path, "w").write(results["__build_error__"])
+                violations.append({"harness": "(build of the shape catalogue)", "check": "C18: derive output does not compile for a supported shape",
+                                   "crate": crate, "native_only": True, "replay": {"reproduced": True, "path": path, "extracted": True}})
+            else:
+                problems.append("/repo itself does not build with the derive features: " + o2[-800:])
+            continue
         if "__build_error__" in results:
             problems.append("build failed for crate %s (harnesses no longer compile against /repo): %s" % (crate, results["__build_error__"][-1500:]))
             continue
